@@ -1274,19 +1274,39 @@ fn tables_case(ctx: &mut Ctx, rel: &OpRel, unknown: &MidnightCircuit<OpRel>) {
     let a = [arch.sha2_256, arch.sha2_512, arch.base64, arch.automaton, arch.keccak_256 || arch.sha3_256, arch.blake2b];
     let u = rel.op.used_tables();
     let bits = |b: &[bool; 6]| b.iter().map(|x| if *x { '1' } else { '0' }).collect::<String>();
+    // Three chips (SHA-256, SHA-512, Keccak/SHA-3) all call their table "spread table"; the load order in
+    // `MidnightCircuit::synthesize` is fixed (sha256, sha512, base64, automaton, keccak/sha3, blake2b), so the
+    // i-th block of "spread table" regions of the real run is attributed to the i-th chip among those three
+    // that is configured and used by the operation; a surplus block is reported as "spread?".
+    let spread_owners: Vec<&str> = [("sha256", 0usize), ("sha512", 1), ("keccak_sha3", 4)]
+        .iter()
+        .filter(|(_, i)| a[*i] && u[*i])
+        .map(|(n, _)| *n)
+        .collect();
+    let mut spread_blocks = 0usize;
+    let mut last_name = String::new();
     let mut seen: Vec<&str> = vec![];
     for it in &s.log.as_ref().unwrap().items {
         if let Item::Table { name } = it {
+            let new_block = *name != last_name;
+            last_name = name.clone();
             let tok = match name.as_str() {
                 "pow2range table" => "p2r",
-                "spread table" => if arch.sha2_256 { "sha256" } else { "sha512" },
+                "spread table" => {
+                    if new_block {
+                        spread_blocks += 1;
+                    }
+                    spread_owners.get(spread_blocks.saturating_sub(1)).copied().unwrap_or("spread?")
+                }
                 "Base64 table" => "base64",
                 "automaton table" => "automaton",
-                _ => if arch.keccak_256 || arch.sha3_256 { "keccak_sha3" } else { "blake2b" },
+                _ => "blake2b",
             };
             if seen.last() != Some(&tok) {
                 seen.push(tok);
             }
+        } else {
+            last_name.clear();
         }
     }
     ctx.case("tables", true, &format!("tables {} {}", bits(&a), bits(&u)), &seen.join(" "));
